@@ -563,12 +563,23 @@ type GCResult struct {
 
 // GC plays collectGarbageWorker: while a trigger is pending, run the real
 // collectGarbage (re-triggering on !done), at most maxRuns times.
-func (n *Node) GC(maxRuns int) GCResult {
+func (n *Node) GC(maxRuns int) GCResult { return n.GCHooked(maxRuns, nil) }
+
+// GCHooked is GC with the package's existing hook testHookGCIteratorDone set:
+// hook(run) is called inside the run-th collectGarbage call between candidate
+// selection and eviction (gcRunning is set, batchMu is free), on the caller's
+// goroutine — the place where an access "races" with the collection.
+func (n *Node) GCHooked(maxRuns int, hook func(run int)) GCResult {
 	r := GCResult{Done: true}
+	defer localstore.VerifSetGCIteratorDoneHook(nil)
 	for n.DB.VerifGCTriggerPending() {
 		if r.Runs >= maxRuns {
 			r.CapHit = true
 			return r
+		}
+		if hook != nil {
+			run := r.Runs
+			localstore.VerifSetGCIteratorDoneHook(func() { hook(run) })
 		}
 		_, c, done, err := n.DB.VerifGCWorkerStep()
 		n.DB.VerifWaitUpdateGC()
